@@ -1,0 +1,51 @@
+//go:build verif
+// +build verif
+
+package backend
+
+// Client lemmas for /verif (tool: gov).  Never called by library code.
+
+func verifAssert(cond bool, label string) {}
+func verifAssume(cond bool)               {}
+
+// ---------------------------------------------------------------------------
+// C17: frequencies (Hz <-> MHz in JSON) and percentages (% <-> fraction in JSON) survive
+// encoding and decoding for every integer value.  The JSON text itself is produced and parsed
+// by the standard library (assumed contract: parsing the text of a float64 gives that float64).
+// ---------------------------------------------------------------------------
+
+func lemmaC17_frequency(f Frequency) {
+	if f < 0 || f > 4294967296 {
+		return
+	}
+	b, err := f.MarshalJSON()
+	verifAssert(err == nil, "encodes")
+	if err != nil {
+		return
+	}
+	var g Frequency
+	err2 := g.UnmarshalJSON(b)
+	verifAssert(err2 == nil, "decodes")
+	if err2 != nil {
+		return
+	}
+	verifAssert(g == f, "equal")
+}
+
+func lemmaC17_percentage(p Percentage) {
+	if p < 0 || p > 100 {
+		return
+	}
+	b, err := p.MarshalJSON()
+	verifAssert(err == nil, "encodes")
+	if err != nil {
+		return
+	}
+	var q Percentage
+	err2 := q.UnmarshalJSON(b)
+	verifAssert(err2 == nil, "decodes")
+	if err2 != nil {
+		return
+	}
+	verifAssert(q == p, "equal")
+}
